@@ -84,16 +84,20 @@ func c07Objs(m *dns.Msg) (objs []string) {
 						add(unsafe.Pointer(v))
 						if len(v.Hint) > 0 {
 							add(unsafe.Pointer(&v.Hint[0]))
-							if len(v.Hint[0]) > 0 {
-								add(unsafe.Pointer(&v.Hint[0][0]))
+							for _, h := range v.Hint {
+								if len(h) > 0 {
+									add(unsafe.Pointer(&h[0]))
+								}
 							}
 						}
 					case *dns.SVCBIPv6Hint:
 						add(unsafe.Pointer(v))
 						if len(v.Hint) > 0 {
 							add(unsafe.Pointer(&v.Hint[0]))
-							if len(v.Hint[0]) > 0 {
-								add(unsafe.Pointer(&v.Hint[0][0]))
+							for _, h := range v.Hint {
+								if len(h) > 0 {
+									add(unsafe.Pointer(&h[0]))
+								}
 							}
 						}
 					case *dns.SVCBMandatory:
@@ -190,6 +194,12 @@ func c07RandMsg(rng *rand.Rand, n int) *dns.Msg {
 		b[0], b[1], b[15], b[14] = 0x20, 0x01, byte(n), byte(rng.Intn(255))
 		return b
 	}
+	ips := func(f func() net.IP, k int) (l []net.IP) {
+		for ; k > 0; k-- {
+			l = append(l, f())
+		}
+		return l
+	}
 	for k := rng.Intn(6); k >= 0; k-- {
 		switch rng.Intn(10) {
 		case 0:
@@ -201,7 +211,7 @@ func c07RandMsg(rng *rand.Rand, n int) *dns.Msg {
 		case 3:
 			h := &dns.HTTPS{SVCB: dns.SVCB{Hdr: hdr(dns.TypeHTTPS), Priority: uint16(1 + rng.Intn(3)), Target: "."}}
 			vals := []dns.SVCBKeyValue{
-				&dns.SVCBAlpn{Alpn: []string{"h2", "h3"}}, &dns.SVCBIPv4Hint{Hint: []net.IP{ip4(), ip4()}}, &dns.SVCBIPv6Hint{Hint: []net.IP{ip6()}},
+				&dns.SVCBAlpn{Alpn: []string{"h2", "h3"}}, &dns.SVCBIPv4Hint{Hint: ips(ip4, 1+rng.Intn(8))}, &dns.SVCBIPv6Hint{Hint: ips(ip6, 1+rng.Intn(3))},
 				&dns.SVCBPort{Port: uint16(rng.Intn(65535))}, &dns.SVCBECHConfig{ECH: []byte{1, 2, 3, byte(n)}}, &dns.SVCBDoHPath{Template: "/dns-query{?dns}"},
 				&dns.SVCBMandatory{Code: []dns.SVCBKey{dns.SVCB_ALPN}}, &dns.SVCBNoDefaultAlpn{}, &dns.SVCBLocal{KeyCode: 65400, Data: []byte{byte(n), 9}},
 			}
@@ -264,8 +274,16 @@ func c07Rewrite(rng *rand.Rand, m *dns.Msg) {
 				for _, v := range rr.Value {
 					switch v := v.(type) {
 					case *dns.SVCBIPv4Hint:
-						if len(v.Hint) > 0 && len(v.Hint[0]) >= 4 {
-							v.Hint[0][len(v.Hint[0])-1] ^= 0xff
+						for _, h := range v.Hint {
+							if len(h) >= 4 {
+								h[len(h)-1] ^= 0xff
+							}
+						}
+					case *dns.SVCBIPv6Hint:
+						for _, h := range v.Hint {
+							if len(h) == 16 {
+								h[7] ^= 0xff
+							}
 						}
 					case *dns.SVCBAlpn:
 						if len(v.Alpn) > 0 {
@@ -330,6 +348,15 @@ func TestVerifC07Cloner(t *testing.T) {
 			case r < 20 || len(ids) == 0:
 				id := newID()
 				m := c07RandMsg(rng, n)
+				if rng.Intn(2) == 0 {
+					// as it comes from an upstream: unpacked from the wire by miekg/dns,
+					// whose unpackers may hand out sub-slices of one array
+					if b, err := m.Pack(); err == nil {
+						if u := new(dns.Msg); u.Unpack(b) == nil {
+							m = u
+						}
+					}
+				}
 				live[id] = &liveMsg{m: m, snap: c07Snap(m)}
 				ids = append(ids, id)
 				out.Emit(c07Event{Ev: "New", Beh: beh, M: id, Objs: c07Objs(m), Damaged: damaged(""), Equal: true})
